@@ -845,7 +845,7 @@ type c10Env struct {
 func (e *c10Env) uploadSession(folder string, items []*upItemSpec, cutItem, cutAt int, expect map[string][]byte, label string) (ok bool, offsets map[int]int) {
 	c := e.c
 	target := filepath.Join(e.ts.Root, folder)
-	preTok, _, _, _, _ := diskStore(target)
+	preTok, preFinal, prePartial, _, _ := diskStore(target)
 	itok := itemsTokens(items)
 	describe := func() {
 		c.Note("session", label)
@@ -926,7 +926,30 @@ func (e *c10Env) uploadSession(folder string, items []*upItemSpec, cutItem, cutA
 	c.Corr("folder-upload-answers", strings.Join(ws, " "), mW, false)
 	c.Corr("folder-upload-store", strings.Join(postTok, " "), sortedFsTokens(mFS), false)
 	_ = mOK
-	// the property, directly: every streamed item exists afterwards with exactly the expected bytes (expect: key -> content, nil = folder)
+	// the property, directly: a streamed file whose final name already exists (and has no partial file) — empty
+	// files included — is answered next-file and is byte-identical afterwards
+	for i, it := range items {
+		if it.isDir || i >= len(cl.wrote) {
+			continue
+		}
+		old, existed := preFinal[it.key]
+		if _, part := prePartial[it.key]; !existed || part {
+			continue
+		}
+		if !bytesEq(cl.wrote[i], []byte{0, 3}) {
+			c.Note("item", it.key)
+			c.Note("existing_size", len(old))
+			c.Note("client_size", len(it.data))
+			c.Note("server_answer", hx(cl.wrote[i]))
+			viol("existing-file-not-skipped", fmt.Sprintf("%s: file %q already exists (%d bytes) but the server answered %x instead of next-file", label, it.key, len(old), cl.wrote[i]))
+		}
+		if now, has := final[it.key]; !has || !bytesEq(now, old) {
+			c.Note("item", it.key)
+			c.Note("existing_size", len(old))
+			viol("existing-file-not-skipped", fmt.Sprintf("%s: file %q existed before the upload and is not byte-identical afterwards", label, it.key))
+		}
+	}
+	// every streamed item exists afterwards with exactly the expected bytes (expect: key -> content, nil = folder)
 	if cutItem < 0 {
 		for _, it := range items {
 			if it.isDir {
@@ -1013,6 +1036,9 @@ func runC10Upload(c *Case) {
 				if r.Chance(30) {
 					b = genData(r, r.Intn(100))
 				}
+				if r.Chance(25) {
+					b = []byte{} // an existing EMPTY file is complete too: skipped, stays empty
+				}
 				os.WriteFile(p, b, 0644)
 				expect[it.key] = b
 			} else {
@@ -1059,6 +1085,16 @@ func runC10Upload(c *Case) {
 			continue
 		}
 		c.Nontrivial(fmt.Sprintf("%s|%d|%d:%d", itemsTokens(items), preMode, cutItem, cutAt))
+		if cutItem < 0 && r.Chance(40) {
+			// the client streams the same folder again: everything is complete (empty files included) and must be skipped
+			_, nowFinal, _, _, _ := diskStore(target)
+			again := map[string][]byte{}
+			for k, v := range nowFinal {
+				again[k] = v
+			}
+			e.uploadSession(folder, items, -1, 0, again, "re-upload of the complete folder")
+			c.Dist("folder-upload/re-upload")
+		}
 		if cutItem >= 0 {
 			// the client comes back and streams the same folder again: complete files are skipped, the partial one is resumed
 			_, final, _, _, _ := diskStore(target)
@@ -1410,7 +1446,7 @@ func runC10Regressions(c *Case) {
 
 func init() {
 	props["C10"] = func(x *Ctx) {
-		x.rule = "folder-download: 4 trees per case (depth ≤ 4, fan-out ≤ 5, ≤ 60 entries — 30% of the cases one tree with fan-out ≤ 7 and up to 150 entries —, empty folders, dot-files and dot-folders with visible entries below them, names chosen to separate per-directory byte order from whole-path order, file sizes 0..100 KiB (thorough 200 KiB), optional .info_/.rsrc_ side files, requested at the root or one level down), each downloaded under 3 action scripts (all send; mixed send/resume/next; resume-heavy or all next; resume offsets 0,1,size-1,size,random; 12% of the runs the client disconnects at an item header or after a file). folder-upload: 4 client trees per case streamed in client order into an empty, partly or largely pre-populated folder (existing folders, complete files with equal or other contents, partial files holding a prefix), 45% cut inside a file item (before the size, inside the header, at header end ±1, mid data, last byte) followed by a second complete session. folder-roundtrip: upload into an empty folder, then download with all-send. long-names: folders named with 252, 253, 254 and 255 bytes (nested, with files named with up to 244 bytes = NAME_MAX minus the .incomplete suffix) uploaded and downloaded again, and stored files named with 252..255 bytes downloaded. non-trivial = a file item whose bytes were transferred (download) / a session that streamed at least one item (upload); distinct = distinct (path, size, action, fork combination) resp. (items, pre-population, cut)"
+		x.rule = "folder-download: 4 trees per case (depth ≤ 4, fan-out ≤ 5, ≤ 60 entries — 30% of the cases one tree with fan-out ≤ 7 and up to 150 entries —, empty folders, dot-files and dot-folders with visible entries below them, names chosen to separate per-directory byte order from whole-path order, file sizes 0..100 KiB (thorough 200 KiB), optional .info_/.rsrc_ side files, requested at the root or one level down), each downloaded under 3 action scripts (all send; mixed send/resume/next; resume-heavy or all next; resume offsets 0,1,size-1,size,random; 12% of the runs the client disconnects at an item header or after a file). folder-upload: 4 client trees per case streamed in client order into an empty, partly or largely pre-populated folder (existing folders, complete files with equal, other or EMPTY contents, partial files holding a prefix; 40% of the uncut uploads are streamed a second time), 45% cut inside a file item (before the size, inside the header, at header end ±1, mid data, last byte) followed by a second complete session. folder-roundtrip: upload into an empty folder, then download with all-send. long-names: folders named with 252, 253, 254 and 255 bytes (nested, with files named with up to 244 bytes = NAME_MAX minus the .incomplete suffix) uploaded and downloaded again, and stored files named with 252..255 bytes downloaded. non-trivial = a file item whose bytes were transferred (download) / a session that streamed at least one item (upload); distinct = distinct (path, size, action, fork combination) resp. (items, pre-population, cut)"
 		x.assume = []string{
 			"root folder names are visible (no leading dot); names ending in .incomplete or starting with .info_/.rsrc_ are not generated (the on-disk naming scheme cannot tell them from partial/side files)",
 			"resume of a file with a stored resource fork, and a resource fork without an information fork, are compared with the model as coded (DESIGN §7 C08 'not covered': resume of the resource fork); the size-prefix clause is judged directly only without a stored resource fork or for 'send'",
